@@ -2,6 +2,7 @@ package sx
 
 import (
 	"fmt"
+	"math/rand"
 	"os"
 	"go/types"
 	"runtime/debug"
@@ -32,6 +33,7 @@ type Engine struct {
 	CrossSolver   string
 	CrossCheck    bool
 	Tier          int
+	Seed          int64
 	WallLimit     time.Duration
 	InitPrefixes  []string // packages (path prefixes) whose initialisers are executed
 	Coverage      map[string]int
@@ -625,6 +627,8 @@ func (e *Engine) RunHarness(fn *ssa.Function, keepModels int) *HarnessResult {
 	work := []workItem{{prefix: nil, model: map[string]uint64{}}}
 	active := 0
 	started := 0
+	eligible := 0
+	rng := rand.New(rand.NewSource(e.Seed + int64(len(fn.Name()))))
 	nw := e.Workers
 	if nw < 1 {
 		nw = 1
@@ -728,9 +732,15 @@ func (e *Engine) RunHarness(fn *ssa.Function, keepModels int) *HarnessResult {
 					}
 					hr.Samples = append(hr.Samples, PathSample{Decisions: pr.Decisions, Status: pr.Status, Model: pr.Model, Observed: obs, Oblig: pr.Obligations})
 				}
-				if (pr.Status == "ok" || pr.Status == "panic") && len(hr.Models) < keepModels {
+				if (pr.Status == "ok" || pr.Status == "panic") && keepModels > 0 {
+					// reservoir sample (seeded) over all completed paths
+					eligible++
 					pm := PathModel{Decisions: pr.Decisions, Status: pr.Status, Model: pr.Model, Observed: pr.Observed}
-					hr.Models = append(hr.Models, pm)
+					if len(hr.Models) < keepModels {
+						hr.Models = append(hr.Models, pm)
+					} else if k := rng.Intn(eligible); k < keepModels {
+						hr.Models[k] = pm
+					}
 				}
 				mu.Unlock()
 				cond.Broadcast()
